@@ -128,4 +128,33 @@ example :
       (.vsel { matchers := [⟨.eq, "__name__", "n"⟩], origOffset := 60000, atTs := none }) : Expr V) := by
   simp [WP, Pin, Pin.pinArgs]
 
+/-! ### where the law fails - in the reference engine and, following it, in this one
+
+`PreprocessExpr` (Prometheus' own, which the engine calls) decides whether an aggregation is step
+invariant by looking at the aggregated expression only, not at the parameter. `topk(scalar(n), m @ 0)`
+is therefore wrapped as a whole, evaluated once at the window start and replicated - with the
+parameter as it was at the start. `WP` excludes it (an unpinned selector inside a wrapper); the
+theorem above does not apply, and the statement is false: -/
+
+def movingParamCtx (start : Int) : Ctx Int :=
+  { st := [⟨[⟨"__name__", "m"⟩, ⟨"a", "x"⟩], [⟨0, .num 5⟩]⟩, ⟨[⟨"__name__", "m"⟩, ⟨"a", "y"⟩], [⟨0, .num 7⟩]⟩,
+           ⟨[⟨"__name__", "n"⟩], [⟨0, .num 1⟩, ⟨60000, .num 2⟩]⟩],
+    lookback := 30000, start := start }
+
+/-- `topk(scalar(n), m @ 0)` as `PreprocessExpr` leaves it -/
+def movingParamExpr : Expr Int :=
+  .stepInv (.aggP "topk" false [] (.call "scalar" [.vsel ⟨[⟨.eq, "__name__", "n"⟩], 0, none, none⟩])
+    (.vsel ⟨[⟨.eq, "__name__", "m"⟩], 0, some 0, none⟩))
+
+/-- **the point at `t = 60s` of the range query starting at 0 has one series (`k` = `n` at the
+window start = 1), the instant query at 60s has two (`k` = 2)** - reference semantics; the engine
+agrees with the reference on both (C01), so its range query is not the sequence of its instant
+queries here (known finding KF-stepinvariant-moving-param) -/
+theorem range_point_is_not_instant_result_under_a_moving_parameter :
+    ((eval (movingParamCtx 0) 60000 movingParamExpr).toOption.map fun v =>
+        match v with | .vec v => v.length | .scal _ => 0) = some 1 ∧
+    ((eval (movingParamCtx 60000) 60000 movingParamExpr).toOption.map fun v =>
+        match v with | .vec v => v.length | .scal _ => 0) = some 2 := by
+  decide
+
 end PromqlVerif.C07
